@@ -132,6 +132,12 @@ class Gen:
 		# let every queued burst reach its frame, fault-free
 		self.ops.append({"op": "idle", "dt": (self.max_adv + 3) * P_NS})
 		cfg = {"trx": trx, "clck_start": start, "ind_period": period, "bind_addr": rng.choice(["0.0.0.0", "0.0.0.0", "127.0.0.1", "10.9.8.7"]), "mode": "coarse"}
+		if rng.random() < 0.1:
+			# a slow machine: for a stretch of ticks the frame handler takes longer than one frame
+			# period, so the clock generator keeps overrunning while commands go on arriving
+			total = sum(max(0, int(o.get("dt", 0))) for o in self.ops) // P_NS
+			cfg["slow"] = {"from": rng.randrange(0, max(1, total)), "count": rng.choice([3, 8, 20, 60]),
+				"dur": rng.choice([P_NS + 1000, 6_000_000, 9_000_000, 14_000_000])}
 		return {"engine": "um", "seed": None, "config": cfg, "ops": self.ops}
 
 	# ---- helpers
@@ -669,6 +675,12 @@ class World:
 			sim.record("tick-begin", fn=fn, thread=sim.current.name if sim.current else None)
 			orig(fn)
 			sim.record("tick-end", fn=fn)
+			if slow and slow["from"] <= world.ticks_total < slow["from"] + slow["count"]:
+				world.fired("slow-tick")
+				sim.sleep(slow["dur"])
+			world.ticks_total += 1
+		slow = cfg.get("slow")
+		world.ticks_total = 0
 		gen.clck_handler = handler
 		orig_start = gen.start
 
